@@ -131,3 +131,5 @@ def run(ctx, prog):
     from rules import accum
     accum.run(ctx, prog)
     accum.run_lockstep(ctx, prog)
+    from rules import numparse
+    numparse.run(ctx, prog)
